@@ -8,6 +8,8 @@ import time
 
 VERIF = os.path.dirname(os.path.dirname(os.path.abspath(__file__)))
 FINDINGS = os.path.join(VERIF, "KNOWN_FINDINGS.jsonl")
+# runs against seeded changes (bin/mutant) must not overwrite the evidence of the real tree
+OUT = "/tmp/vf_mutant_out" if os.environ.get("VF_NO_EVIDENCE") else VERIF
 
 
 def load_findings():
@@ -90,7 +92,7 @@ class Ctx:
                     print("KNOWN-FINDING: property=%s %s" % (self.pid, f["what"]), flush=True)
                 return False
         rid = sha([key, what])
-        d = os.path.join(VERIF, "replays", self.pid)
+        d = os.path.join(OUT, "replays", self.pid)
         os.makedirs(d, exist_ok=True)
         path = os.path.join(d, rid + ".json")
         with open(path, "w") as fh:
@@ -121,8 +123,8 @@ class Ctx:
             "coverage": cov, "assumptions": self.assumptions,
             "wall_s": round(time.time() - self.t0, 2), "violations": len(self.violations),
         }
-        os.makedirs(os.path.join(VERIF, "evidence"), exist_ok=True)
-        with open(os.path.join(VERIF, "evidence", self.pid + ".json"), "w") as fh:
+        os.makedirs(os.path.join(OUT, "evidence"), exist_ok=True)
+        with open(os.path.join(OUT, "evidence", self.pid + ".json"), "w") as fh:
             json.dump(ev, fh, indent=1, default=str)
         return 1 if self.violations else 0
 
